@@ -275,6 +275,10 @@ def run(ctx):
     r = impl.encode(spec, 'A', {'a': True, 'b': False, 'c': True, 'd': False})
     if not (r[0] == 'ok' and r[1].hex() == '31155fffff7f01005f8180800001ff9f2301009f2801ff'):
         ctx.violation('der: SET components with high tag numbers are not in ascending tag order', {'module': w, 'type': 'A', 'impl': r[1].hex() if r[0] == 'ok' else r[1]})
+    # SET: identical octets whatever the textual order of the (explicitly tagged) components
+    from .. import tagged as _tagged
+    from ..gen import Gen as _Gen, Opts as _Opts, module_text as _module_text
+    _tagged.run_set_order(ctx, 'C03', ctx.rng, ctx.n(50, 600), impl, ['der'], _Gen, _Opts, _module_text)
 
 
 def sorted_members_differs(t, v, got, want):
